@@ -274,10 +274,19 @@ def run(ctx):
         seed = rnd.randrange(1, 10 ** 6)
         r2 = random.Random(seed)
         first_day = (k == n - 1)           # directed: the run starts on the first day of the trading calendar and the cut is its opening auction
-        S = B.gen_market(r2, ndays=r2.randrange(7, 15), opts={"p_div": 0.6, "p_split": 0.4, "p_sus": 0.1, "p_delist": 0.1}, **({"warm": 0} if first_day else {}))
-        cfgk = trading.gen_config(r2, S, {"no_signal": True, "p_reinvest": 0.5})
+        init_day = (k in (n - 2, n - 3))   # directed: the run starts from configured holdings and the cut is the opening auction of its first day
+        S = B.gen_market(r2, ndays=r2.randrange(7, 15), opts={"p_div": 1.0 if k % 3 == 0 else 0.6, "p_split": 0.4, "p_sus": 0.1, "p_delist": 0.1, "early_announce": k % 3 == 0, "p_two_div": 1.0 if k % 3 == 0 else 0.2},
+                         **({"warm": 0} if first_day else {}), **({"n_stocks": 3} if k % 3 == 0 else {}))
+        cfgk = trading.gen_config(r2, S, {"no_signal": True, "p_reinvest": 0.5, "p_init_pos": 1.0 if init_day else 0.15})
         if not cfgk["accounts"] or not S["stocks"]:
             continue
+        if init_day and "stock" not in cfgk["accounts"]:
+            cfgk["accounts"]["stock"] = 200000.0
+        if init_day and "stock" in cfgk["accounts"]:
+            st0 = next((s_ for s_ in S["stocks"] if s_["listed"] <= S["cal"][0]), None)
+            if st0 is not None and st0["id"] not in str((cfgk.get("base_extra") or {}).get("init_positions", "")):
+                ip0 = (cfgk.get("base_extra") or {}).get("init_positions")
+                cfgk["base_extra"] = dict(cfgk.get("base_extra") or {}, init_positions=(ip0 + "," if ip0 else "") + "%s:300" % st0["id"])
         ids = [s["id"] for s in S["stocks"]] + [f["id"] for f in S["futures"]]
         days = [d for d in S["cal"] if S["start"] <= d <= S["end"]]
         A = run_world(S, cfgk, seed, ids)
@@ -296,7 +305,16 @@ def run(ctx):
                 if 1 <= di_ < len(days) - 1:
                     di, before = di_, True
             cuts.append((di, before))
-        if first_day:
+        # a table whose announcement dates do not ascend: one cut between the two announcements (the later row is not announced yet)
+        for rows in S["div"].values():
+            anns = [r[0] for r in rows]
+            if len(anns) >= 2 and anns != sorted(anns):
+                inside = [i for i, d in enumerate(days) if min(anns) < B.d8(d) < max(anns) and 1 <= i < len(days) - 1]
+                if inside:
+                    cuts.append((inside[-1], True))
+                    ctx.stats["cuts_between_two_announcements"] += 1
+                    break
+        if first_day or init_day:
             cuts = [(0, True)]
         for di, before_open in cuts:
             ci = S["cal"].index(days[di])
@@ -322,6 +340,9 @@ def run(ctx):
                     what = "%s(%s) in %s at %s returned %s in one history and %s in the other" % (x[1]["query"], x[1]["id"], x[1]["phase"], x[1]["cal"], json.dumps(x[1]["result"])[:160], json.dumps(y[1]["result"])[:160])
                 else:
                     sig = {"kind": "trace_differs", "entry": x[0], "cut": rp["cut"]}
+                    if ci == 0 and i == 0 and (cfgk.get("base_extra") or {}).get("init_positions"):
+                        # configured starting holdings are priced at "the previous trading day", which on the first day of the calendar is that day itself (finding F29)
+                        sig = {"kind": "query_leak", "first_calendar_day": True, "query": "init_positions"}
                     # a fill during the opening auction that is not at the open (finding F18: an auction order re-matched as a bar order at the day's close)
                     # (the fill exists in both histories at different prices, or — when the limit lies between the two closes — in one of them only)
                     if before_open and any(z[0] == "TRADE" and z[1].endswith("T00:00:00") for z in (x, y)):
@@ -341,7 +362,7 @@ def run(ctx):
                     continue
                 seen.add(key)
                 ctx.witness("C07.1", sig, "two market histories identical up to the %s of %s: %s" % (rp["cut"], days[di], what), dict(rp, entry=i))
-                if sig["kind"] == "trace_differs":
+                if sig["kind"] == "trace_differs" or sig.get("query") == "init_positions":
                     break           # later entries are consequences
             if len(ca) != len(cb) and not seen:
                 ctx.witness("C07.1", {"kind": "trace_length", "cut": rp["cut"]}, "traces before the cut have %d and %d entries" % (len(ca), len(cb)), rp)
